@@ -17,8 +17,9 @@ TEnter == /\ Step("Enter") /\ Cardinality(active) < k /\ E.q \notin active /\ E.
 TExit == Step("Exit") /\ E.q \in active /\ active' = active \ {E.q} /\ done' = done \cup {E.q}
          /\ UNCHANGED <<sent, rd, k>>
 \* every query of the burst was answered exactly once with its own id
-TEnd == /\ Step("End") /\ active = {} /\ Cardinality(done) = sent /\ E.answered = sent /\ E.dup = 0
-        /\ E.maxActive <= k
+TEnd == /\ Step("End") /\ active = {} /\ E.dup = 0 /\ E.maxActive <= k
+        /\ (E.strict => Cardinality(done) = sent /\ E.answered = sent)
+        /\ E.answered <= sent
         /\ UNCHANGED <<vars, k>>
 TraceNext == TReset \/ TSend \/ TEnter \/ TExit \/ TEnd
 TraceSpec == TraceInit /\ [][TraceNext]_tvars
